@@ -19,7 +19,7 @@ Ev == Trace[l]
 TInit == WNewState(FALSE) /\ l = 1
 
 TNewW == /\ Ev.ev = "new"
-         /\ ros' = Ev.ros /\ sctx' = (IF Ev.canc THEN "cancelled" ELSE "live") /\ lp' = "ask" /\ sp' = "none" /\ done' = FALSE
+         /\ ros' = Ev.ros /\ sctx' = (IF Ev.canc THEN "cancelled" ELSE "live") /\ extra' = 0 /\ lp' = "ask" /\ sp' = "none" /\ done' = FALSE
          /\ nnow' = 0 /\ nd' = 0 /\ askedWith' = 0 /\ waitD' = 0
          /\ timer' = "none" /\ timerD' = 0 /\ fires' = 0 /\ ticks' = 0
          /\ refs' = <<>> /\ lerr' = 0 /\ handled' = <<>> /\ result' = -1 /\ ferr' = 0
@@ -39,10 +39,14 @@ TRefresh == /\ Ev.ev = "refresh"
 THandle == Ev.ev = "handle" /\ HandleError /\ Ev.err = handled'[Len(handled')]
 TCancel == Ev.ev = "cancel" /\ CancelStart
 TShutdown == Ev.ev = "shutdown" /\ Shutdown
+(* Shutdown called again: whether it panics or returns is free ("ret2"), but  *)
+(* no refresh event can follow - no action would match it.                    *)
+TShutdownAgain == Ev.ev = "shutdown2" /\ ShutdownAgain
+TRetAgain == Ev.ev = "ret2" /\ sp = "returned" /\ extra > 0 /\ UNCHANGED wvars
 TRet == Ev.ev = "ret" /\ ShutdownReturn /\ Ev.res = result' /\ Ev.canc
 
 TNext == /\ l <= Len(Trace)
          /\ l' = l + 1
-         /\ (TNewW \/ TAsk \/ TSleep \/ TTick \/ TRefresh \/ THandle \/ TCancel \/ TShutdown \/ TRet)
+         /\ (TNewW \/ TAsk \/ TSleep \/ TTick \/ TRefresh \/ THandle \/ TCancel \/ TShutdown \/ TRet \/ TShutdownAgain \/ TRetAgain)
 TSpec == TInit /\ [][TNext]_tvars
 =============================================================================
